@@ -89,7 +89,10 @@ PatchNilA(s, v0, j, addl) ==
                THEN [k |-> j.m[i].k, v |-> EmptyArrJ]
                ELSE j.m[i]]]
       [] OTHER -> j
+\* known finding: a value schema of additionalProperties that is declared inline as an object / allOf / oneOf becomes an
+\* anonymous Go type without JSON methods (Go's default encoding on both ways)
 KF == IF Known(Ev.type) /\ S(Ev.type).k = "datetime" THEN "codec-named-datetime"
+      ELSE IF Known(Ev.type) /\ S(Ev.type).k = "object" /\ S(Ev.type).inlineAddl THEN "codec-addl-inline-composite"
       ELSE IF Ev.ev = "Enc" /\ Known(Ev.type) /\ Ev.encOK /\ Ev.j.t # "invalid" /\ C06(Ev) /\ ~C07(Ev)
               /\ C07([Ev EXCEPT !.j = PatchNil(S(Ev.type), Ev.v, Ev.j)]) THEN "c07-nested-array-nil-null"
       ELSE IF Ev.ev = "Enc" /\ Known(Ev.type) /\ Ev.encOK /\ Ev.j.t # "invalid" /\ C06(Ev) /\ ~C07(Ev)
